@@ -22,7 +22,7 @@ MANIFEST = {
 }
 
 BOUNDS = {
-    'quick': {'memsafe': [(3, 2), (4, 2), (4, 3)], 'spec': [(4, 2), (4, 3)], 'sample-only': [(4, 2), (3, 3)], 'forward': [(0, 0)]},
+    'quick': {'memsafe': [(3, 2), (4, 2), (4, 3), (5, 2), (6, 2)], 'spec': [(4, 2), (4, 3)], 'sample-only': [(4, 2), (3, 3)], 'forward': [(0, 0)]},
     'thorough': {'memsafe': [(4, 3), (5, 3), (6, 2), (4, 4)], 'spec': [(5, 3), (6, 2)], 'sample-only': [(4, 3), (5, 2)], 'forward': [(0, 0)]},
 }
 RATIOS = [1, 2, 3, 4, 5, 6, 7]
@@ -145,7 +145,7 @@ def run_job(job):
             if not KM.close(sym, real):
                 out.error = f'stand-in disagrees with the compiled kernel on {w}: {sym} vs {real}'
             out.sample({'Y': w['Y'], 'X': w['X'], 'r': f'{rk}/8', 'score': real})
-    return hutil.run_symx(job, setup, body)
+    return hutil.run_symx(job, setup, body, wit=wit)
 
 
 POISON = r'''
@@ -153,29 +153,46 @@ import sys, json, numpy as np, numba
 sys.path.insert(0, %(repo)r)
 from outrank.algorithms.feature_ranking import ranking_mi_numba as K
 @numba.njit
-def poison(size, val, reps):
+def poison(maxsize, val, ival):
     s = 0.0
-    for _ in range(reps):
-        a = np.empty(size)
-        for i in range(size):
-            a[i] = val
-        s += a[0]
+    for size in range(1, maxsize + 1):
+        la = [np.empty(size) for _ in range(30)]
+        lb = [np.empty(size, dtype=np.int32) for _ in range(30)]
+        lc = [np.empty(size, dtype=np.int64) for _ in range(30)]
+        for a in la:
+            for i in range(size):
+                a[i] = val
+        for b in lb:
+            for i in range(size):
+                b[i] = ival
+        for c in lc:
+            for i in range(size):
+                c[i] = ival
+        s += la[0][0] + lb[0][0] + lc[0][0]
     return s
 Y = np.array(%(Y)r, dtype=np.int32); X = np.array(%(X)r, dtype=np.int32)
 out = []
-for rep in range(3):
-    poison(%(size)d, %(val)r, 2000)
-    out.append(float(K.mutual_info_estimator_numba(Y, X, np.float32(%(r)r), %(corr)r)))
+fv, _ = K.numba_unique(X)
+K.mutual_info_estimator_numba(Y, X, np.float32(1.0), %(corr)r)
+K.stratified_subsampling(Y, X, np.float32(%(r)r), fv)
+poison(2, 0.0, 0)
+for rep in range(2):
+    poison(%(size)d, %(val)r, %(ival)d)
+    ys, xs = K.stratified_subsampling(Y, X, np.float32(%(r)r), fv)
+    smp = [ys.tolist(), xs.tolist()]
+    poison(%(size)d, %(val)r, %(ival)d)
+    out.append([float(K.mutual_info_estimator_numba(Y, X, np.float32(%(r)r), %(corr)r)), smp])
 print(json.dumps(out))
 '''
 
 
 def poisoned_runs(Y, X, r, corr):
-    """scores / exit codes of the real estimator in fresh interpreters after filling freed blocks of the buffer's size with different values"""
-    size = max(1, int(r * len(X)))
+    """scores / exit codes of the real estimator in fresh interpreters after filling freed heap blocks of every small size
+    (float64, int32 and int64 arrays of 1..2n+2 cells) with different values"""
+    size = 2 * len(X) + 2
     res = []
-    for val in (0.0, 1.0, 3.0, float(len(X) - 1), 1e300):
-        code = POISON % dict(repo=loader.REPO, Y=list(Y), X=list(X), size=size, val=val, r=r, corr=bool(corr))
+    for val, ival in ((0.0, 0), (1.0, 1), (3.0, 3), (float(len(X) - 1), len(X) - 1), (1e300, 2 ** 30)):
+        code = POISON % dict(repo=loader.REPO, Y=list(Y), X=list(X), size=size, val=val, ival=ival, r=r, corr=bool(corr))
         p = subprocess.run([sys.executable, '-c', code], capture_output=True, text=True, timeout=300)
         if p.returncode != 0:
             res.append(('exit', p.returncode, (p.stderr or '')[-200:]))
@@ -185,6 +202,13 @@ def poisoned_runs(Y, X, r, corr):
 
 
 def replay(w):
+    try:
+        return _replay(w)
+    except Exception as e:  # the real build raised
+        return {'reproduced': True, 'signature': f'C04:raises-{type(e).__name__}', 'what': f'the real estimator raises {type(e).__name__}: {str(e)[:200]} on {({k: v for k, v in w.items() if k in ("Y", "X", "r", "corr", "Y2", "map")})}'}
+
+
+def _replay(w):
     if w['cond'] in ('flag', 'forward'):
         from harness import C03
         r = C03.replay(dict(w, cond='flag'))
@@ -193,17 +217,22 @@ def replay(w):
     Y, X, corr = w['Y'], w['X'], w['corr']
     r = w['r'][0] / w['r'][1]
     if w['cond'] == 'memsafe':
-        runs = poisoned_runs(Y, X, r, corr)
-        vals = set()
-        crashed = [x for x in runs if x[0] == 'exit']
-        for x in runs:
-            if x[0] == 'ok':
-                vals.update(round(v, 6) if v == v and abs(v) != float('inf') else str(v) for v in x[1])
-        if crashed or len(vals) > 1:
-            return {'reproduced': True, 'signature': 'C04:uninit-index-buffer',
-                    'what': f'mutual_info_estimator_numba(Y={Y}, X={X}, r={r}, corr={corr}) after heap poisoning: scores {sorted(map(str, vals))}, abnormal exits {len(crashed)} (index buffer of int(r*n)={int(r * len(X))} cells is only partly written)',
-                    'detail': {'runs': runs}}
-        return {'reproduced': False, 'what': f'no dependence on stale heap contents observed: {runs}'}
+        # which cells are read uninitialised depends on X and r only; the feature vector is chosen so that a wrong row matters
+        n = len(X)
+        allruns = []
+        for Yv in (Y, list(range(n)), [(i * i) % 3 for i in range(n)]):
+            runs = poisoned_runs(Yv, X, r, corr)
+            allruns.append(runs)
+            vals = set()
+            crashed = [x for x in runs if x[0] == 'exit']
+            for x in runs:
+                if x[0] == 'ok':
+                    vals.update((round(v, 6) if v == v and abs(v) != float('inf') else str(v), json.dumps(smp)) for v, smp in x[1])
+            if crashed or len(vals) > 1:
+                return {'reproduced': True, 'signature': 'C04:uninit-index-buffer',
+                        'what': f'mutual_info_estimator_numba(Y={Yv}, X={X}, r={r}, corr={corr}) after heap poisoning: (score, sampled rows) = {sorted(map(str, vals))[:4]}, abnormal exits {len(crashed)} (a never-written cell of the sampling index buffer is used as a row index)',
+                        'detail': {'runs': runs}}
+        return {'reproduced': False, 'what': f'no dependence on stale heap contents observed: {allruns[0]}'}
     if w['cond'] == 'spec':
         import numpy as np
         K = KM.real_kernel()
